@@ -243,5 +243,11 @@ STAGES = [
               "thorough": 4000
           },
           fork=True,
-          rust=True)
+          rust=True,
+          timeout=150,
+          timeout_violation=lambda case: (
+              "endless", ("stream-stalls",),
+              f"a repeating stream stopped delivering examples (no result "
+              f"within the watchdog): desc={case['desc']['fmt']} ops="
+              f"{case['ops']} reads={case['reads']}"))
 ]
